@@ -36,6 +36,40 @@ fn main() {
     }
     let seed: u64 = std::env::var("VERIF_SEED").ok().and_then(|s| s.parse().ok()).unwrap_or(0);
     install_quiet_panic_hook();
+    if id == "probe-lib" {
+        use proptest::strategy::{Strategy, ValueTree};
+        let n: usize = rest.first().and_then(|s| s.parse().ok()).unwrap_or(100);
+        let mut runner = vcheck::engine::runner_for(seed, 77);
+        let strat = vcheck::gen::wit::libspec_strategy(4);
+        let (mut ok, mut bad, mut bytes) = (0, 0, 0usize);
+        let t0 = std::time::Instant::now();
+        let mut feats = std::collections::BTreeMap::<&str, usize>::new();
+        for _ in 0..n {
+            let spec = strat.new_tree(&mut runner).unwrap().current();
+            let lib = vcheck::gen::wit::build_lib(&spec);
+            for f in vcheck::gen::wit::lib_features(&lib) {
+                *feats.entry(f).or_default() += 1;
+            }
+            let r = match vcheck::engine::guarded(|| vcheck::gen::wit::build_library(&lib)) {
+                Ok(r) => r,
+                Err(p) => Err(format!("PANIC in reference toolchain: {p}\n{}", vcheck::gen::wit::render_world(&lib.apis, &lib.comps[0]))),
+            };
+            match r {
+                Ok(cs) => {
+                    ok += 1;
+                    bytes += cs.iter().map(|c| c.bytes.len()).sum::<usize>();
+                }
+                Err(e) => {
+                    bad += 1;
+                    if bad <= 3 {
+                        println!("REJECTED: {e}");
+                    }
+                }
+            }
+        }
+        println!("libs ok={ok} rejected={bad} bytes={bytes} in {:?}; features {feats:?}", t0.elapsed());
+        return;
+    }
     if id == "probe" {
         // check probe <text>: show wac tokens, wac verdict, reference verdicts
         let text = rest.join(" ");
@@ -62,6 +96,7 @@ fn main() {
         return;
     }
     let code = match id.as_str() {
+        "C06" => props::c06::run(tier, seed, replay.as_deref()),
         "C12" => props::c12::run(tier, seed, replay.as_deref()),
         "C13" => props::c13::run(tier, seed, replay.as_deref()),
         "C14" => props::c14::run(tier, seed, replay.as_deref()),
